@@ -11,7 +11,7 @@ from typing import Any, Dict, List, Optional
 from .model import AnalysisError, Repo, torch_facts
 
 VERIF = Path(__file__).resolve().parent.parent
-EVIDENCE_DIR = VERIF / 'evidence'
+EVIDENCE_DIR = Path(os.environ.get('VERIF_EVIDENCE_DIR') or (VERIF / 'evidence'))
 KNOWN_FILE = VERIF / 'known_findings.json'
 
 
@@ -122,7 +122,7 @@ def finish(ctx: Ctx, level: str, explanation: str, rule_text: str) -> int:
         seen.add(o.key)
         print(f'KNOWN-FINDING: property={ctx.prop} {o.rule} {o.construct} — '
               f'{o.known.get("what", o.message)}')
-    EVIDENCE_DIR.mkdir(exist_ok=True)
+    EVIDENCE_DIR.mkdir(parents=True, exist_ok=True)
     replay_dir = EVIDENCE_DIR / 'replay'
     for i, o in enumerate(violations):
         replay_dir.mkdir(exist_ok=True)
